@@ -6,7 +6,7 @@ from hypothesis import strategies as st
 from vlib.runner import Sub, ok, bad, skip
 from vlib import bench, wb
 
-RULE = ("topology (Arbiter, Decoder, InterconnectShared, Crossbar, point-to-point) x 1..3 masters x 1..3 slaves x generated "
+RULE = ("topology (Arbiter, Decoder, InterconnectShared, Crossbar, point-to-point, and the interconnect SoCBusHandler composes from declared masters/slaves/regions) x 1..3 masters x 1..3 slaves x generated "
         "disjoint address map (real SoCRegion.decoder) x registered/unregistered decode x per-master request programs "
         "(reads/writes, mapped or hole addresses, gaps, held cyc, simultaneous starts, aborts on unmapped addresses) x "
         "per-slave ack schedules; every master tags its requests in dat_w so that per-cycle routing/ownership invariants can "
@@ -28,9 +28,12 @@ def _overlap(a, b):
 def st_case(tier):
     @st.composite
     def case(draw):
-        kind = draw(st.sampled_from(["shared", "shared", "crossbar", "crossbar", "arbiter", "decoder", "p2p"]))
+        kind = draw(st.sampled_from(["shared", "shared", "crossbar", "crossbar", "arbiter", "decoder", "p2p", "socbus", "socbus"]))
         M = 1 if kind in ("decoder", "p2p") else draw(st.integers(1, 3))
         S = 1 if kind in ("arbiter", "p2p") else draw(st.integers(1, 3))
+        ic = draw(st.sampled_from(["shared", "crossbar"]))
+        if kind == "socbus" and draw(st.integers(0, 2)) == 0:
+            M = S = 1           # the SoC builds a point-to-point connection only for one master, one slave at origin 0
         wins = []
         for idx in draw(st.permutations(list(range(len(WINDOWS))))):
             w = WINDOWS[idx]
@@ -44,7 +47,9 @@ def st_case(tier):
         for m in range(M):
             ops = []
             for _ in range(nops):
-                hole = kind not in ("arbiter", "p2p") and draw(st.integers(0, 9)) == 0
+                hole = kind not in ("arbiter", "p2p") and draw(st.integers(0, 9 if kind != "socbus" else 4)) == 0
+                if kind == "socbus" and M == 1 and S == 1 and wins[0][0] == 0:
+                    hole = False    # point-to-point by design ("no address translation"): no decoder, so no unmapped address
                 if hole:
                     base = draw(st.sampled_from(HOLES))
                     if any(_overlap((base, 0x100), w) for w in wins):
@@ -56,7 +61,7 @@ def st_case(tier):
                             "sel": draw(st.sampled_from([15, 15, 3, 8, 1])), "gap": draw(st.sampled_from([0, 0, 0, 1, 2, 4])),
                             "hold": draw(st.booleans()), "hole": hole})
             progs.append(ops)
-        return {"kind": kind, "M": M, "S": S, "wins": [list(w) for w in wins], "register": register, "progs": progs,
+        return {"kind": kind, "ic": ic, "M": M, "S": S, "wins": [list(w) for w in wins], "register": register, "progs": progs,
                 # data width of the bus (the region decoders turn byte windows into word-address predicates)
                 "dw": draw(st.sampled_from([32, 32, 64])),
                 # slaves that answer some requests with err - together with ack, or instead of it
@@ -77,6 +82,12 @@ def run_case(case):
     from litex.soc.interconnect import wishbone
     from litex.soc.integration.soc import SoCRegion
     kind, M, S = case["kind"], case["M"], case["S"]
+    label = kind
+    if kind == "socbus":
+        # the interconnect SoCBusHandler composes from masters / slaves / regions declared through its API; judged as the
+        # topology that was asked for (point-to-point only for one master, one slave whose region starts at 0)
+        kind = "p2p" if (M == 1 and S == 1 and case["wins"][0][0] == 0) else case["ic"]
+        label = "socbus:" + kind
     top = Module()
     dw = case.get("dw", 32)
     nb = dw // 8
@@ -88,8 +99,21 @@ def run_case(case):
 
     class _B(_Bus):
         data_width = dw
-    decs = [(r.decoder(_B), s) for r, s in zip(regions, slaves)]
-    if kind == "shared":
+    decs = [(r.decoder(_B), s) for r, s in zip(regions, slaves)] if case["kind"] != "socbus" else None
+    if case["kind"] == "socbus":
+        from litex.soc.integration.soc import SoCBusHandler
+        from vlib import env as _env
+        h = SoCBusHandler(standard="wishbone", data_width=dw, address_width=32, timeout=None, interconnect=case["ic"],
+                          interconnect_register=register)
+        try:
+            for i_, m_ in enumerate(masters):
+                h.add_master("m%d" % i_, m_)
+            for j_, (r_, s_) in enumerate(zip(regions, slaves)):
+                h.add_slave("s%d" % j_, s_, r_)
+        finally:
+            _env.restore_stderr()
+        top.submodules.dut = h
+    elif kind == "shared":
         top.submodules.dut = wishbone.InterconnectShared(masters, decs, register=register, timeout_cycles=case.get("timeout"))
     elif kind == "crossbar":
         top.submodules.dut = wishbone.Crossbar(masters, decs, register=register, timeout_cycles=None)
@@ -133,7 +157,7 @@ def run_case(case):
     agents += mprobe + sprobe
     limit = 300 + sum(len(p) for p in case["progs"]) * 150
     cyc = bench.run(top, agents, limit, stop=lambda t: all(a.finished() for a in mags))
-    cls = ["kind:" + kind, "M%dS%d" % (M, S), "registered" if register else "comb-decode"]
+    cls = ["kind:" + label, "M%dS%d" % (M, S), "registered" if register else "comb-decode"]
 
     def inwin(j, wadr):
         o, s = case["wins"][j]
